@@ -381,6 +381,29 @@ func dimensionGuards(c *Ctx) map[*ssa.Function]bool {
 			out[f] = true
 		}
 	}
+	// transitive: a function returning error that calls a guard and returns the guard's error is a guard (batch validators)
+	changed := true
+	for changed {
+		changed = false
+		for _, f := range prodFuncs(c, "storage") {
+			res := f.Signature.Results()
+			if out[f] || res.Len() != 1 || !isErrorType(res.At(0).Type()) {
+				continue
+			}
+			eachInstr(f, func(i ssa.Instruction) {
+				cl, isC := i.(*ssa.Call)
+				if !isC || !out[cl.Call.StaticCallee()] || out[f] {
+					return
+				}
+				for _, rt := range returnsOf(f) {
+					if rt.Results[0] == ssa.Value(cl) {
+						out[f] = true
+						changed = true
+					}
+				}
+			})
+		}
+	}
 	return out
 }
 
